@@ -41,8 +41,8 @@ struct Fam {
     k: u64,
 }
 
-fn timeout_choice(t: &mut Tape) -> (Option<TimeoutSettings>, u64, u64, u64) {
-    // returns settings, read ns, connect ns, retries
+fn timeout_choice(t: &mut Tape) -> (Option<TimeoutSettings>, u64, Option<u64>, u64) {
+    // returns settings, read ns, connect ns (None: no connect timeout configured), retries
     let pick = |t: &mut Tape| {
         match t.draw(CFG, 4) {
             0 => Duration::from_nanos(1),
@@ -52,16 +52,17 @@ fn timeout_choice(t: &mut Tape) -> (Option<TimeoutSettings>, u64, u64, u64) {
         }
     };
     if t.draw(CFG, 5) == 0 {
-        return (None, 4 * SEC, 4 * SEC, 0);
+        return (None, 4 * SEC, Some(4 * SEC), 0);
     }
     let r = pick(t);
     let w = pick(t);
-    let c = pick(t);
+    // a connect timeout of None is legal: connect blocks as long as the kernel tries, reads stay bounded
+    let c = if t.draw(CFG, 5) == 0 { None } else { Some(pick(t)) };
     let retries = t.draw(CFG, 3);
     (
-        Some(TimeoutSettings::new(Some(r), Some(w), Some(c), retries as usize).unwrap()),
+        Some(TimeoutSettings::new(Some(r), Some(w), c, retries as usize).unwrap()),
         r.as_nanos() as u64,
-        c.as_nanos() as u64,
+        c.map(|c| c.as_nanos() as u64),
         retries,
     )
 }
@@ -377,6 +378,8 @@ impl Prop for C12 {
         // ---- oracle 1: every socket got the configured timeouts, every blocking call was bounded by them
         let mut problems: Vec<(String, String, String, String)> = Vec::new();
         let write_ns = fam.call.timeout.map_or(4 * SEC, |t| t.get_write().map_or(0, |d| d.as_nanos() as u64));
+        // without a connect timeout the kernel gives up after about 127 s of SYN retries
+        let connect_bound = connect_ns.unwrap_or(127 * SEC);
         let mut timeout_waits = 0u64;
         let mut sockets_seen = 0;
         let mut read_set: std::collections::HashMap<u64, Option<u64>> = std::collections::HashMap::new();
@@ -394,11 +397,11 @@ impl Prop for C12 {
                         read_set.insert(*sock, None);
                         write_set.insert(*sock, None);
                     }
-                    if *timeout != Some(connect_ns) {
-                        problems.push((format!("{name}|connect-timeout-not-applied"), "TCP connect was not given the configured connect timeout".into(), format!("{connect_ns} ns"), format!("{timeout:?}")));
+                    if *timeout != connect_ns {
+                        problems.push((format!("{name}|connect-timeout-not-applied"), "TCP connect was not given the configured connect timeout".into(), format!("{connect_ns:?} ns"), format!("{timeout:?}")));
                     }
-                    if *waited > connect_ns.saturating_add(10 * MS) {
-                        problems.push((format!("{name}|connect-outlasted-timeout"), "connect blocked longer than the connect timeout".into(), format!("<= {connect_ns} ns"), format!("{waited} ns")));
+                    if *waited > connect_bound.saturating_add(10 * MS) {
+                        problems.push((format!("{name}|connect-outlasted-timeout"), "connect blocked longer than the connect timeout".into(), format!("<= {connect_bound} ns"), format!("{waited} ns")));
                     }
                 }
                 Hist::SetTimeout { sock, read, value, ok, .. } if *ok => {
@@ -437,7 +440,7 @@ impl Prop for C12 {
             problems.push((format!("{name}|blocked-without-timeout"), "a receive blocked with no timeout and nothing pending".into(), "bounded wait".into(), "blocks forever".into()));
         }
         // ---- oracle 2: total duration bounded by attempts x timeout
-        let t_max = read_ns.max(connect_ns);
+        let t_max = read_ns.max(connect_bound);
         let bound = (retries + 2).saturating_mul(fam.k).saturating_mul(t_max).saturating_add(SEC);
         if run.world.now > bound {
             problems.push((
@@ -449,7 +452,7 @@ impl Prop for C12 {
         }
         // ---- oracle 3: error class
         let truncated = run.world.hist.iter().any(|h| matches!(h, Hist::UdpRecv { len, full_len, .. } if len < full_len));
-        let generous = read_ns >= 4 * SEC && connect_ns >= 4 * SEC;
+        let generous = read_ns >= 4 * SEC && connect_bound >= 4 * SEC;
         match (&run.result, &run.crash) {
             (_, Some(c)) => problems.push((format!("{name}|{}", c.signature()), c.describe(), "Ok or Err".into(), c.describe())),
             // what happens after the client cut a reply short is owned by C04/C05
@@ -512,6 +515,9 @@ impl Prop for C12 {
         if read_ns == 3600 * SEC {
             out.probe("timeout_1h");
         }
+        if connect_ns.is_none() {
+            out.probe("no_connect_timeout");
+        }
         let _ = sockets_seen;
         out.absorb(&run.world);
         out.nontrivial = true;
@@ -549,6 +555,7 @@ impl Prop for C12 {
             "ipv6_destination",
             "timeout_1ns",
             "timeout_1h",
+            "no_connect_timeout",
             "payload_65507",
             "payload_0",
             "short_write",
